@@ -24,7 +24,7 @@ def _gorace(d):
 def _validate(ctx, trace_path, cfg, name):
     """Run Trace_LoggerCid on a trace file: (consumed, total). Anything but a verdict is Broken."""
     info = ctx.tlc("logger", "Trace_LoggerCid", cfg, name=name, files={"trace.ndjson": trace_path},
-                   workers=1, count_states=False, timeout=600)
+                   workers=1, count_states=False, timeout=1500)
     m = None
     for line in open(info["log"]):
         m = re.match(r'<<"TRACE", (\d+), (\d+)>>', line) or m
@@ -96,7 +96,7 @@ def _self_test(ctx, trace_path, cfg):
     k = news[len(news) // 2]
     e = dict(evs[k], id=evs[news[0]]["id"])
     tests.append(("dupid", k, e))
-    if True:
+    if ctx.tier == "thorough":
         al = [k for k, e in enumerate(evs) if e["e"] == "alias" and e["src"]["k"] == "ctx"]
         if al:
             k = al[len(al) // 2]
